@@ -68,13 +68,14 @@ type tlcCase struct {
 	Codes  []int  `json:"codes"`
 	Widths []int  `json:"widths"`
 	// pngfilter
-	W     int   `json:"w"`
-	H     int   `json:"h"`
-	Bpp   int   `json:"bpp"`
-	Fts   []int `json:"fts"`
-	Fill  int   `json:"fill"`
-	Filt  []int `json:"filt"`
-	Recon []int `json:"recon"`
+	W     int    `json:"w"`
+	H     int    `json:"h"`
+	Bpp   int    `json:"bpp"`
+	Fts   []int  `json:"fts"`
+	Fill  int    `json:"fill"`
+	Mode  string `json:"mode"`
+	Filt  []int  `json:"filt"`
+	Recon []int  `json:"recon"`
 }
 
 func toBytes(v []int) []byte {
@@ -342,7 +343,7 @@ func main() {
 					ref = fmt.Sprintf("MISMATCH: Go's image/png reconstructs %x, TLC expects %x", head(gv.Pix), head(cv.Pix))
 				}
 			}
-			set := map[string]any{"w": c.W, "h": c.H, "bpp": c.Bpp, "color_type": ct, "fill": c.Fill, "zlib_level": level, "idat_chunks": parts}
+			set := map[string]any{"w": c.W, "h": c.H, "bpp": c.Bpp, "color_type": ct, "fill": c.Fill, "mode": c.Mode, "zlib_level": level, "idat_chunks": parts}
 			if c.H <= 3 {
 				set["filters"] = c.Fts
 				set["filtered"] = c.Filt
